@@ -31,7 +31,7 @@ COMPONENTS = {"real": ["FutureChain", "Future subclasses", "Exchange.__getitem__
               "harness": ["calendar-free lead model", "independent ledger"], "stub": []}
 PROBE_FLOORS = {"roll_executed": 300, "step_exactly_on_last_trading_instant": 50, "short_position_rolled": 100,
                 "month_offset_positive": 100, "roll_with_spread": 100, "expiry_passed_flat": 100, "explicit_contract_list": 50,
-                "foreign_clock_write": 50}
+                "foreign_clock_write": 50, "single_event_days_with_roll": 50}
 
 
 def month_add(y, m, k):
@@ -114,23 +114,43 @@ def generate(rng, i, force=None):
     events = []
     px = [base * (1 + 0.002 * j) for j in range(len(mem))]
     two = rng.random() < 0.3
+    # 'lead_only': a single quote per timestep (the contract the chain trades; on a roll step also the one it
+    # traded before), so that on daily grids every event is the first - and only - event of its date
+    lead_only = rng.random() < 0.3
+    if lead_only:
+        two = False
     etf_px = 100.0
+    prev_traded = None
     for g in grid:
         li = lead_index(ltd, g, 0)
+        traded = li + offset if li is not None else None
         for j in range(len(mem)):
             px[j] *= 1 + rng.uniform(-0.01, 0.01)
             if g >= exp[j]:
+                continue
+            if lead_only and j not in (traded, prev_traded):
                 continue
             far = li is not None and j >= li + offset + 2
             if far and rng.random() < 0.2:
                 continue            # F1: quote gap for a far member
             events.append({"t": core.iso(g), "type": "nbbo", "c": [0, j], "bid": px[j] * (1 - spread / 2), "ask": px[j] * (1 + spread / 2), "id": len(events)})
+        prev_traded = traded
         if two:
             etf_px *= 1 + rng.uniform(-0.01, 0.01)
             events.append({"t": core.iso(g), "type": "nbbo", "c": 1, "bid": etf_px, "ask": etf_px, "id": len(events)})
     specs = [spec] + ([{"name": "E1", "kind": "ETF"}] if two else [])
     mingap = min((b - a).total_seconds() for a, b in zip(grid, grid[1:]))
-    lat_us = rng.choice([0, 0, 0, 10 ** 6]) if mingap > 2 else 0
+    lat_us = rng.choice([0, 0, 0, 10 ** 6, 120 * 10 ** 6]) if mingap > 130 else 0
+    if lat_us and not lead_only:
+        # quotes arriving inside the latency window (between decision and execution); with decisions at 23:59
+        # and a two-minute latency the window crosses midnight, i.e. possibly a last-trading instant
+        lat = timedelta(microseconds=lat_us)
+        for g in grid[:-1]:
+            if rng.random() < 0.6:
+                t2 = g + (lat if rng.random() < 0.5 else lat / 2)
+                for j in range(len(mem)):
+                    if t2 < exp[j]:
+                        events.append({"t": core.iso(t2), "type": "nbbo", "c": [0, j], "bid": px[j] * (1 - spread / 2), "ask": px[j] * (1 + spread / 2), "id": len(events)})
     env = {
         "contracts": specs, "grid": [core.iso(g) for g in grid], "grid_input": list(range(len(grid))), "events": events,
         "latency_us": lat_us, "delay": rng.choice([0, 0, 1]), "reward": {"cls": "RewardSimpleReturn"},
@@ -155,7 +175,7 @@ def generate(rng, i, force=None):
             script.append({"op": "clock", "t": core.iso(rng.choice(grid))})
         script.append({"op": "step", "env": 0, "action": a})
     return {"kind": "epi", "envs": [env], "clock0": core.iso(grid[0]), "script": script, "prng": rng.randrange(2 ** 31),
-            "meta": {"cls": cls, "offset": offset, "style": style, "tod": tod, "explicit": explicit, "nmem": len(mem), "y0m0": [y0, m0]}}
+            "meta": {"cls": cls, "offset": offset, "style": style, "tod": tod, "explicit": explicit, "nmem": len(mem), "y0m0": [y0, m0], "lead_only": lead_only}}
 
 
 def to_dt(x):
@@ -239,6 +259,14 @@ def execute(scenario):
                 continue
             if to_dt(now) in ltd:
                 probe("step_exactly_on_last_trading_instant")
+            if model_lead(st["hold_before"] and r["env_now"]) is not None and st.get("k") is not None:
+                # did the lead change between the decision (start of the step) and the execution?
+                prev_now = ep["steps"][k - 1]["now"] if k > 0 else ep["reset"]["now"]
+                if model_lead(prev_now) != j:
+                    pass
+            if env_spec["latency_us"] and to_dt(now) > to_dt(ep["steps"][k - 1]["now"] if k > 0 else ep["reset"]["now"]) and \
+                    model_lead(ep["steps"][k - 1]["now"] if k > 0 else ep["reset"]["now"]) != j:
+                probe("lead_changes_inside_latency_window")
             # the chain key addresses the lead's book
             bk = r["chains"]["CH"].get("book")
             wantb = r["books"].get(syms[j])
@@ -309,12 +337,14 @@ def execute(scenario):
                 break
     if offset > 0:
         probe("month_offset_positive")
+    if scenario.get("meta", {}).get("lead_only") and rolls:
+        probe("single_event_days_with_roll")
     if scenario.get("meta", {}).get("explicit"):
         probe("explicit_contract_list")
     if sim.faults.get("foreign_clock_write"):
         probe("foreign_clock_write")
     m = scenario.get("meta", {})
-    trace = "{}|n{}|o{}|{}|t{}|r{}|{}|thr{}|d{}".format(m.get("cls"), m.get("nmem"), offset, m.get("style"), m.get("tod"), rolls, "".join(sorted(sides)), thr, delay)
+    trace = "{}|n{}|o{}|{}|t{}|r{}|{}|thr{}|d{}|q{}".format(m.get("cls"), m.get("nmem"), offset, m.get("style"), m.get("tod"), rolls, "".join(sorted(sides)), thr, delay, int(bool(m.get("lead_only"))))
     d_first, d_last = core.parse_t(env_spec["grid"][0]), core.parse_t(env_spec["grid"][-1])
     sim.stats["sim_seconds"] = int((d_last - d_first).total_seconds())
     sim.stats["rolls"] = rolls
